@@ -375,7 +375,7 @@ func (c *Ctx) errorSites() []errSite {
 // errorTable is the frozen cause table: function -> statuses it may emit.
 var errorTable = map[string]map[int64]string{
 	"(*server.Router).ServeHTTP":                              {404: "no service bound to host/path"},
-	"(*server.Service).serviceRequestWithTarget":              {503: "TLS request for a service without TLS"},
+	"(*server.Service).serviceRequestWithTarget":              {503: "TLS request for a service without TLS", 301: "TLS redirect"},
 	"(*server.Service).handlePausedAndStoppedRequests":        {200: "health-check path while paused/stopped", 503: "stopped (operator message)", 504: "held longer than max-pause"},
 	"(*server.Service).redirectToHTTPS":                       {301: "TLS redirect"},
 	"(*server.LoadBalancer).ServeHTTP":                        {503: "no healthy target / target refused the claim"},
